@@ -65,6 +65,9 @@ def judge(scn: dict, tr: dict, offender: str, how: str) -> List[dict]:
     # (what set_initial_event means for a time-based simulator is outside this property and outside the
     # documentation: the step set of such a simulator is not judged here)
     unsure = {x["sid"] for x in scn["sims"] if x["type"] != "event-based" and x.get("initial_event") is not None}
+    if scn.get("_rt_variant"):
+        # steps demanded by set_event() are not part of the step-set model used here (C17 judges them)
+        return out
     for v in a.viol["C02"]:
         if v.get("sid") in unsure:
             continue
@@ -91,6 +94,15 @@ def run_slice(job: dict) -> dict:
             if tb and scn["until"] > 2:
                 tb[0]["initial_event"] = 1 + H(seed, "c13ie", i) % (scn["until"] - 2)
                 C["scenarios_time_based_with_initial_event"] += 1
+        if i % 5 == 1:
+            # real-time variant (virtual clock): one simulator also schedules steps for itself with set_event(),
+            # so a step can already be queued when the malformed reply arrives
+            scn["config"] = dict(scn.get("config", {}), rt_factor=0.01)
+            scn["_rt_variant"] = True
+            pick = sorted(scn["sims"], key=lambda x: (x["type"] != "time-based", H(seed, "c13rt", i, x["sid"])))[0]
+            pick["set_events"] = True
+            pick["beh"] = dict(pick["beh"], set_events={"*": [-(1 + H(seed, "c13ev", i) % 3)]})
+            C["scenarios_real_time_with_set_event"] += 1
         base = run_case(scn, {"policy": "random", "seed": i})
         res["evaluations"] += 1
         if base["outcome"]["kind"] != "ok":
@@ -170,7 +182,8 @@ def evidence(m, tier, seed):
         "rule": "for every generated scenario a fault-free run counts each simulator's steps; then every (simulator, "
                 "step index < min(steps, cap), malformed value) is run once under a rotating schedule policy: next "
                 "step in {float, fractional float, str, list, negative, == time, < time, float(until), until+0.5}, None from a time-based "
-                "simulator, output time in {time-1, -1}; expected: run() raises an error whose text contains the "
+                "simulator, output time in {time-1, -1}; every fifth scenario in real-time mode (virtual clock) with a simulator that "
+                "also queues steps for itself through set_event(); expected: run() raises an error whose text contains the "
                 "simulator id, the offender gets no further request, nobody gets a request after finalize, the step "
                 "set/order of everybody stays consistent; distinct_nontrivial = distinct (scenario, offender, step, "
                 "fault, global order) where the fault was actually delivered",
